@@ -170,6 +170,7 @@ class ScriptedRunner(SimulationRunner):
         res.add_new_result("cnt", Result.SUMTYPE, val)
         res.add_new_result("err", Result.RATIOTYPE, val, tot)
         res.add_new_result("last", Result.MISCTYPE, "m%d" % serial)
+        res.add_result(Result.create("ch", Result.CHOICETYPE, serial % 3, 3))
         w.seams.seam("cb:run:exit")
         return res
 
@@ -805,8 +806,16 @@ def _check_completed(w, pid, res, k, inc, cfg, pname, pred, final_name, parts, s
                                   v, got, want, e["loaded"]), dict(sig_f, loaded=e["loaded"]))
                 return
             last = results["last"][v].get_result()
-            if last != "m%d" % e["ids"][-1] and not e["loaded"]:
-                add_violation(res, pid + ".merge", k, "variation %d: misc result %r is not the last repetition's (m%d)" % (v, last, e["ids"][-1]), sig_f)
+            if last != "m%d" % e["ids"][-1]:
+                add_violation(res, pid + ".merge", k, "variation %d: misc result %r is not the last repetition's (m%d) (loaded=%s)" % (v, last, e["ids"][-1], e["loaded"]),
+                              dict(sig_f, loaded=e["loaded"], result="misc"))
+                return
+            chr_ = results["ch"][v]
+            want_ch = [sum(1 for i in e["ids"] if i % 3 == c) for c in range(3)]
+            got_ch = [int(x) for x in chr_._value]
+            if got_ch != want_ch or int(chr_._total) != len(e["ids"]):
+                add_violation(res, pid + ".merge", k, "variation %d: choice counts %s / total %s, the successful repetitions give %s / %d (loaded=%s)" % (
+                    v, got_ch, chr_._total, want_ch, len(e["ids"]), e["loaded"]), dict(sig_f, loaded=e["loaded"], result="choice"))
                 return
     except (KeyError, IndexError, AttributeError) as ex:
         add_violation(res, pid + ".merge", k, "stored results unusable: %s: %s" % (type(ex).__name__, ex), sig_f)
